@@ -81,6 +81,33 @@ theorem failure_reported (env : Env) (req : Msg) (t : Bytes) (hf : Failure env r
     apply finish [.invoke] (Or.inr rfl)
     cases ht : env.target <;> simp_all [dispatch]
 
+/-! ### the connection goes on: positions of the failing request in a sequence -/
+
+/-- requests that do not close the connection are served one after the other, each exactly as if it
+    were alone on the connection -/
+theorem serveConn_prefix (pre post : List (Env × Msg)) (h : ∀ e ∈ pre, Action.closeConn ∉ serveOne e.1 e.2) :
+    serveConn (pre ++ post) = pre.flatMap (fun e => serveOne e.1 e.2) ++ serveConn post := by
+  induction pre with
+  | nil => simp
+  | cons e es ih =>
+    obtain ⟨env, req⟩ := e
+    have h1 : Action.closeConn ∉ serveOne env req := h (env, req) (by simp)
+    simp only [List.cons_append, serveConn, h1, if_false, List.flatMap_cons, List.append_assoc]
+    rw [ih (fun e he => h e (by simp [he]))]
+
+/-- **a failing request never stops the connection**: wherever it stands in the sequence – after any
+    requests that were served, before any others – the requests behind it are served exactly as if the
+    failure had not happened, and its own caller gets the faithful error report of `failure_reported` -/
+theorem failure_does_not_stop_the_connection (pre post : List (Env × Msg)) (env : Env) (req : Msg) (t : Bytes)
+    (hpre : ∀ e ∈ pre, Action.closeConn ∉ serveOne e.1 e.2)
+    (hf : Failure env req t) (ha : Admitted env req) (hh : Header.isHeartbeat req.hdr = false)
+    (ho : Header.isOneway req.hdr = false) (hcm : ∀ e ∈ env.resMeta, e.1 ≠ serviceErrorKey) :
+    serveConn (pre ++ (env, req) :: post)
+      = pre.flatMap (fun e => serveOne e.1 e.2) ++ serveOne env req ++ serveConn post := by
+  obtain ⟨_, _, _, _, hnc, _⟩ := failure_reported env req t hf ha hh ho hcm
+  rw [serveConn_prefix pre _ hpre]
+  simp only [serveConn, hnc, if_false, List.append_assoc]
+
 /-- one-way failures produce no write at all -/
 theorem oneway_failure_silent (env : Env) (req : Msg) (ha : Admitted env req) (hh : Header.isHeartbeat req.hdr = false)
     (ho : Header.isOneway req.hdr = true) : writes (serveOne env req) = [] := by
